@@ -1,4 +1,6 @@
 """C06 - node ids are never handed out twice (E1 on real persistence files, model_checking)."""
+import collections
+
 from .. import alpha, e1check, explore
 from ..monitors import GatewayMonitor
 
@@ -31,6 +33,7 @@ class C06Spec(explore.Spec):
             alpha.rx("1;255;3;0;0;57"),
             alpha.rx("1;255;3;0;6;0"),
             ("tick",),
+            ("tickfail", "fsync"),
             ("restart",),
         ]
         if self.tier == "thorough":
@@ -55,11 +58,170 @@ ASSUMPTIONS = [
 
 
 def run(tier):
+    from ..common import HarnessError, Report
+
     spec = C06Spec(tier)
+    report = Report(PROP, "model_checking", tier)
     if tier == "quick":
-        return e1check.run_e1(spec, tier, depth=6, state_budget=300000, time_budget=150, rule=RULE, assumptions=ASSUMPTIONS)
-    return e1check.run_e1(spec, tier, depth=8, state_budget=2000000, time_budget=1800, rule=RULE, assumptions=ASSUMPTIONS)
+        explore.run(spec, report, tier, 6, 300000, 150)
+    else:
+        explore.run(spec, report, tier, 8, 2000000, 1800)
+    for viol in list(report.violations.values()):
+        if viol.replay and viol.replay.get("kind") == "history" and not explore.confirm(spec, viol):
+            raise HarnessError(f"violation {viol.signature} did not reproduce from its replay data")
+    part_b = run_part_b(report, tier)
+    cov = report.coverage
+    cov["rule"] = RULE
+    cov["evaluations"] = cov["transitions"] + part_b["schedules"]
+    cov["distinct_nontrivial"] = cov["states"]
+    cov["stop_vs_id_request"] = part_b
+    report.assumptions = list(ASSUMPTIONS)
+    return report.finish()
 
 
 def replay(data):
+    rep = data["replay"]
+    if rep.get("kind") == "schedule":
+        sched, handed, restored = _b_run_one(rep["fmt"], list(rep["choices"]))
+        print(f"ids handed out on the open connection: {handed}; nodes restored after restart: {restored}")
+        if any(i not in restored for i in handed):
+            print(f"VIOLATION property={PROP} replay=<replayed>")
+            return 1
+        print("did not reproduce on the current tree")
+        return 0
     return e1check.replay_history(C06Spec("thorough"), data)
+
+
+# -- part (b): a clean stop against a concurrent id request (E2) -------------------------------------
+
+
+def _b_run_one(fmt, prefix):
+    import os
+    import shutil
+
+    from .. import sched as S
+    from ..common import scratch_root
+    from .c16 import Conn
+
+    from mysensors.gateway_serial import SerialGateway
+
+    S.install_library_shims()
+    del S.TIMERS[:]
+    d = os.path.join(scratch_root(), f"verif-pymys-{os.getpid()}", "c06b")
+    shutil.rmtree(d, ignore_errors=True)
+    os.makedirs(d)
+    path = os.path.join(d, f"p.{fmt}")
+    gw = SerialGateway("/dev/verif", persistence=True, persistence_file=path, protocol_version="2.2")
+    gw.logic("1;255;0;0;17;2.2")
+    gw.start_persistence()
+    sched = S.Scheduler(prefix, trace_files=("mysensors/task.py",), horizon=4000)
+    log = sched.log
+    conn = Conn(log, "c0")
+    gw.tasks.transport.protocol.connection_made(conn)
+    S.PUMP_TASKS[0] = gw.tasks
+    proto = gw.tasks.transport.protocol
+
+    def body():
+        def pump():
+            try:
+                gw.tasks._poll_queue()
+            except Exception as exc:  # pylint: disable=broad-except
+                log.append(("pump-raised", type(exc).__name__, str(exc)[:100]))
+
+        def reader():
+            proto.handle_line("255;255;3;0;3;")
+
+        def stopper():
+            try:
+                gw.stop()
+            except Exception as exc:  # pylint: disable=broad-except
+                log.append(("stop-raised", type(exc).__name__, str(exc)[:100]))
+
+        t0 = sched.spawn(pump, "pump")
+        t1 = sched.spawn(reader, "reader")
+        t2 = sched.spawn(stopper, "stopper")
+        sched.block(lambda: not t1.alive and not t2.alive, ("join",))
+        gw.tasks._stop_event.set()
+        sched.block(lambda: not t0.alive, ("join-pump",))
+
+    sched.run(body)
+    handed = []
+    for e in log:
+        if e[0] == "write":
+            parts = e[2].decode().strip().split(";")
+            if len(parts) == 6 and parts[2] == "3" and parts[4] == "4":
+                handed.append(int(parts[5]))
+    gw2 = SerialGateway("/dev/verif", persistence=True, persistence_file=path, protocol_version="2.2")
+    gw2.tasks.persistence.safe_load_sensors()
+    restored = sorted(gw2.sensors)
+    shutil.rmtree(d, ignore_errors=True)
+    return sched, handed, restored
+
+
+def _b_part(args):
+    from .. import sched as S
+
+    fmt, bound, roots, deadline, limit = args
+    res = S.Result()
+    found = {}
+    outcomes = collections.Counter()
+
+    def make(prefix):
+        sched, handed, restored = _b_run_one(fmt, prefix)
+        sched.result = (handed, restored)
+        return sched
+
+    def check(sched):
+        handed, restored = sched.result
+        outcomes[(tuple(handed), tuple(restored))] += 1
+        for pid in handed:
+            if pid not in restored:
+                npre = S.preemptions(sched.points, len(sched.points))
+                sig = "stop-vs-id-request|id-response-sent-but-not-persisted"
+                if sig not in found or npre < found[sig][2]:
+                    found[sig] = (f"id {pid} was handed out on the open connection while stop() was running, but is not in the file after the restart (restored nodes {restored})", list(sched.choices), npre, fmt)
+        for e in sched.log:
+            if e[0] in ("pump-raised", "stop-raised"):
+                found.setdefault(f"stop-vs-id-request|{e[0]}|{e[1]}", (f"{e[0]}: {e[1]}: {e[2]}", list(sched.choices), 0, fmt))
+
+    complete, leftover = S.explore(make, check, bound, res, deadline=deadline, roots=roots, expand_limit=limit)
+    return fmt, complete, leftover, res.executions, res.points, found, dict((str(k), v) for k, v in outcomes.items())
+
+
+def run_part_b(report, tier):
+    import multiprocessing
+    import time
+
+    from ..common import NPROC
+
+    bound = 1 if tier == "quick" else 2
+    deadline = time.time() + (60 if tier == "quick" else 900)
+    ctx = multiprocessing.get_context("fork")
+    total = collections.Counter()
+    outcomes = collections.Counter()
+    complete_all = True
+    with ctx.Pool(NPROC) as pool:
+        parts = []
+        for fmt, complete, leftover, execs, points, found, outs in pool.imap(_b_part, [(f, bound, None, deadline, 20) for f in ("json", "pickle")]):
+            total["executions"] += execs
+            total["points"] += points
+            outcomes.update(outs)
+            complete_all = complete_all and complete
+            _b_add(report, found)
+            chunks = [leftover[i::8] for i in range(8)]
+            parts += [(fmt, bound, ch, deadline, None) for ch in chunks if ch]
+        for fmt, complete, leftover, execs, points, found, outs in pool.imap_unordered(_b_part, parts):
+            total["executions"] += execs
+            total["points"] += points
+            outcomes.update(outs)
+            complete_all = complete_all and complete
+            _b_add(report, found)
+    return {"preemption_bound": bound, "schedules": total["executions"], "scheduling_decisions": total["points"], "complete": complete_all, "distinct_outcomes(ids handed out, nodes restored)": dict(outcomes),
+            "rule": "pump thread (real _poll_queue) + a reader thread delivering one id request + a thread calling stop(), all schedules up to the preemption bound at line granularity of task.py; then a fresh start on the same file: every id that left the gateway on the open connection must be a known node after the restart"}
+
+
+def _b_add(report, found):
+    from ..common import Violation
+
+    for sig, (msg, choices, npre, fmt) in found.items():
+        report.add(Violation(PROP, sig, f"{msg} ({fmt}, schedule with {npre} preemption(s))", {"kind": "schedule", "check": PROP, "fmt": fmt, "choices": choices}))
